@@ -124,7 +124,7 @@ Proof. destruct a as [| | |[|]], b as [| | |[|]]; cbn; congruence. Qed.
 Definition canon (ad ax sl fz : bool) (cmp eq : option bool) (h u : harg)
            (oh oe on ca : bool) (ini : option bool) (oi bf bx : bool) : cfg :=
   Cf ApiS (Some ad) (Some ax) (Some sl) cmp eq h u (Some fz) oh oe on ca ini oi
-     (B bf bx BHObj false false).
+     (B bf bx BHObj false).
 
 Definition canon_of (c : cfg) : cfg :=
   canon (auto_detect c) (auto_exc c) (slots c) (frozen_arg c) (c_cmp c) (c_eq c) (c_hash c)
@@ -132,11 +132,11 @@ Definition canon_of (c : cfg) : cfg :=
         (b_frozen (c_base c)) (b_exc (c_base c)).
 
 Lemma decide_canon c : decide c = decide (canon_of c).
-Proof. destruct c as [? ? ? ? ? ? ? ? ? ? ? ? ? ? ? [? ? ? ? ?]]. reflexivity. Qed.
+Proof. destruct c as [? ? ? ? ? ? ? ? ? ? ? ? ? ? ? [? ? ? ?]]. reflexivity. Qed.
 Lemma spec_canon c : spec_kind c = spec_kind (canon_of c).
-Proof. destruct c as [? ? ? ? ? ? ? ? ? ? ? ? ? ? ? [? ? ? ? ?]]. reflexivity. Qed.
+Proof. destruct c as [? ? ? ? ? ? ? ? ? ? ? ? ? ? ? [? ? ? ?]]. reflexivity. Qed.
 Lemma valid_canon c : validb c = validb (canon_of c).
-Proof. destruct c as [? ? ? ? ? ? ? ? ? ? ? ? ? ? ? [? ? ? ? ?]]. reflexivity. Qed.
+Proof. destruct c as [? ? ? ? ? ? ? ? ? ? ? ? ? ? ? [? ? ? ?]]. reflexivity. Qed.
 
 (** [forall resolved arguments, P (canon ...)] as one boolean. *)
 Definition fa_canon (P : cfg -> bool) : bool :=
@@ -295,14 +295,14 @@ Proof.
   replace (validb (canon_of c)) with true in H by (now rewrite <- valid_canon).
   replace (decide (canon_of c)) with Untouched in H by (now rewrite <- decide_canon).
   replace (entry_before (canon_of c)) with EAbsent in H
-    by (rewrite <- Hb; destruct c as [? ? ? ? ? ? ? ? ? ? ? ? ? ? ? [? ? ? ? ?]]; reflexivity).
+    by (rewrite <- Hb; destruct c as [? ? ? ? ? ? ? ? ? ? ? ? ? ? ? [? ? ? ?]]; reflexivity).
   replace (final_entry (canon_of c)) with ENone in H
-    by (rewrite <- Hf; destruct c as [? ? ? ? ? ? ? ? ? ? ? ? ? ? ? [? ? ? ? ?]]; reflexivity).
+    by (rewrite <- Hf; destruct c as [? ? ? ? ? ? ? ? ? ? ? ? ? ? ? [? ? ? ?]]; reflexivity).
   cbn in H. apply andb_true_iff in H.
   replace (legacy_row (canon_of c)) with (legacy_row c) in H
-    by (destruct c as [? ? ? ? ? ? ? ? ? ? ? ? ? ? ? [? ? ? ? ?]]; reflexivity).
+    by (destruct c as [? ? ? ? ? ? ? ? ? ? ? ? ? ? ? [? ? ? ?]]; reflexivity).
   replace (slots (canon_of c)) with (slots c) in H
-    by (destruct c as [? ? ? ? ? ? ? ? ? ? ? ? ? ? ? [? ? ? ? ?]]; reflexivity).
+    by (destruct c as [? ? ? ? ? ? ? ? ? ? ? ? ? ? ? [? ? ? ?]]; reflexivity).
   exact H.
 Qed.
 
@@ -328,17 +328,15 @@ Definition inherited_cache_uninitialised (c : cfg) : bool :=
   && init_generated c.
 
 Theorem hash_total_A_l : forall c,
-  (exists e, decide c <> Err e) \/ True ->
   resolved_hashable c (final_entry c) = true ->
   constructible c = true ->
   inherited_cache_uninitialised c = false ->
-  cache_written_past_slot c = false ->
   probe_of c = PReturns.
 Proof.
-  intros c _ Hh Hc Hk1 Hk12. unfold probe_of. rewrite Hc. cbn.
+  intros c Hh Hc Hk1. unfold probe_of. rewrite Hc. cbn.
   unfold inherited_cache_uninitialised in Hk1. unfold resolved_hashable in Hh.
   destruct (final_entry c); cbn in *; try discriminate.
-  - now rewrite Hk12.
+  - reflexivity.
   - reflexivity.
   - destruct (b_hash (c_base c)); cbn in *; try discriminate; try reflexivity.
     now rewrite Hk1.
@@ -347,7 +345,7 @@ Qed.
 (** The unguarded statement is false of the faithful model (and of the code). *)
 Definition k1_witness : cfg :=
   Cf ApiS None None None None (Some false) HN HN None false false false false None false
-     (B true false BHCache false false).   (* @attr.s(eq=False) below @attr.s(frozen=True, cache_hash=True) *)
+     (B true false BHCache false).   (* @attr.s(eq=False) below @attr.s(frozen=True, cache_hash=True) *)
 
 Theorem hash_total_refuted_K1_l :
   exists c, validb c = true /\ decide c = Untouched /\ table c = Untouched /\
@@ -355,31 +353,21 @@ Theorem hash_total_refuted_K1_l :
             probe_of c = PAttributeError.
 Proof. exists k1_witness. vm_compute. repeat split; reflexivity. Qed.
 
-Definition k12_witness : cfg :=
-  Cf ApiS None None None None None HN HN (Some true) false false false true None false
-     (B true false BHCache false true).  (* @attr.s(frozen=True, cache_hash=True) below a slotted one *)
-
-Theorem hash_total_refuted_K12_l :
-  exists c, validb c = true /\ decide c = Generated /\
-            resolved_hashable c (final_entry c) = true /\ constructible c = true /\
-            inherited_cache_uninitialised c = false /\ probe_of c = PAttributeError.
-Proof. exists k12_witness. vm_compute. repeat split; reflexivity. Qed.
-
 (** Non-vacuity of the table rows. *)
 Example row_generated : decide (Cf ApiD None None None None None HN HN (Some true) false false false
-                                  false None false (B false false BHObj false false)) = Generated.
+                                  false None false (B false false BHObj false)) = Generated.
 Proof. reflexivity. Qed.
 Example row_unhashable : decide (Cf ApiD None None None None None HN HN None false false false
-                                   false None false (B false false BHObj false false)) = Unhashable.
+                                   false None false (B false false BHObj false)) = Unhashable.
 Proof. reflexivity. Qed.
 Example row_untouched_exc : decide (Cf ApiD None None None None None HN HT None false false false
-                                      false None false (B false true BHObj false false)) = Untouched.
+                                      false None false (B false true BHObj false)) = Untouched.
 Proof. reflexivity. Qed.
 Example row_frozen_by_base : decide (Cf ApiS None None None None None HN HN None false false false
-                                       false None false (B true false BHGen false false)) = Generated.
+                                       false None false (B true false BHGen false)) = Generated.
 Proof. reflexivity. Qed.
 Example row_own_eq_detected : final_entry (Cf ApiD None None None None None HN HN None false true false
-                                       false None false (B false false BHObj false false)) = ENone.
+                                       false None false (B false false BHObj false)) = ENone.
 Proof. reflexivity. Qed.
 
 (** ** Part B *)
@@ -653,3 +641,30 @@ Example copy_slotted_resets_cache :
   frun (Cl 0 0%Z [F None EqT] true false true) [0] [OHash; OCopy; OHash]
   = [MHashed (0%Z, [0]) true; MDone; MHashed (0%Z, [0]) true].
 Proof. reflexivity. Qed.
+
+(** ** B, for instances built by the class's own generated [__init__] *)
+Section FromInit.
+  Variable val : Type.
+  Variable key : keyid -> val -> val.
+  Variable eh : Type.
+  Variable ehash : val -> eh.
+  Variable hres : Type.
+  Variable H : Z -> list eh -> hres.
+
+  Theorem hash_total_init_l : forall c ops vs,
+    hash_returns val key eh ehash hres H c (init val hres c vs) ops.
+  Proof. intros. apply hash_total_l. apply init_inited. Qed.
+
+  Theorem cached_equals_uncached_init_l : forall c ops vs,
+    forallb (fun o => negb (is_set val o)) ops = true ->
+    hashes_uncached val key eh ehash hres H c (init val hres c vs) ops.
+  Proof. intros. apply cached_equals_uncached_l; [assumption | apply init_slot_ok]. Qed.
+
+  Theorem cache_once_init_l : forall c ops vs,
+    cache c = true -> forallb (hash_or_set val) ops = true ->
+    computations hres (run val key eh ehash hres H c (init val hres c vs) ops)
+    = if existsb (fun o => negb (is_set val o)) ops then 1 else 0.
+  Proof.
+    intros c ops vs Hc Ho. apply cache_once_l; auto. unfold init; cbn. now rewrite Hc.
+  Qed.
+End FromInit.
